@@ -8,4 +8,5 @@ from specs import lifecycle
 def build(run):
     lifecycle.verify_run_tasks(run)
     lifecycle.verify_stop_sblocks(run)
+    lifecycle.verify_run_forever(run)
     run.replayer('Circuit._run_tasks/raises:cancelled_while_waiting/post2', lambda run_, ob, model: open('/verif/specs/replay_c08a.py').read())
